@@ -1,11 +1,18 @@
 """C15 - polynomial trajectories meet all boundary conditions with consistent derivatives (harness/h_poly.c; float/long double: h_poly_w.c)."""
 
+try:
+    _HAS_FMA = ' fma ' in open('/proc/cpuinfo').read()
+except OSError:
+    _HAS_FMA = False
+
 SPEC = dict(
     harness=['h_poly.c', 'h_poly_ext.c'],
     # the default (double) build runs the full harness; the other two real widths run a compact type-generic companion
     configs=lambda tier: [dict(name='f64'), dict(name='f32', real=4, harness=['h_poly_w.c']), dict(name='f80', real=16, harness=['h_poly_w.c']),
-                          dict(name='cxx', harness=['h_cxxw.c', 'h_cxxw_shim.cc'], hflags=['-DVF_CXXW=15'], nworkers=4)],
-    parallel_configs=4,
+                          dict(name='cxx', harness=['h_cxxw.c', 'h_cxxw_shim.cc'], hflags=['-DVF_CXXW=15'], nworkers=4)] +
+                         # ISA axis: with -mfma <math.h> defines FP_FAST_FMA*, which selects other arms of conditional code (only where the CPU has it)
+                         ([dict(name='f80-fma', real=16, harness=['h_poly_w.c'], cflags=['-mfma'], nworkers=3)] if _HAS_FMA else []),
+    parallel_configs=5,
     workers={'quick': 12, 'thorough': 36},
     level='exploration',
     rule='boundary data sets are drawn at random: main regime = every boundary value non-zero, sign random, magnitude log-uniform in '
